@@ -1,90 +1,88 @@
 import Toodee.Spec.History
-import Toodee.Properties.C02
-import Toodee.Properties.C04Frame
+import Toodee.Proofs.HistoryInplace
 import Toodee.Properties.C06
 import Toodee.Properties.C07
 import Toodee.Properties.C08
 import Toodee.Properties.C09
 import Toodee.Properties.C10
 import Toodee.Properties.C11
-import Toodee.Properties.C13
-import Toodee.Properties.C15
-import Toodee.Properties.C16
-import Toodee.Properties.C17
+import Toodee.Properties.C12
 import Toodee.Properties.C20
 /-
-  Lemmas for C01 (histories): one invariant-preservation lemma per operation (`hs_inv_*`), and the rows-of-cells
-  readings (`hs_grid_*`) of the per-operation results used by `C01_step_refines`.
+  Lemmas for C01 (histories), part 2: for every operation of a history (`HOp`) the shape invariant after it (`hs_inv_*`), the
+  outcome the caller sees (`hs_res_*`: never `ub`, never `fuel`), and its agreement with the rows-of-cells model (`hs_ref_*`).
+  The in-place operations are in Proofs/HistoryInplace.lean.
 -/
 namespace Toodee
 variable {α : Type}
 
-/-! ### small facts about the shape invariant -/
+/-! ### evaluating the drains of a history step -/
 
-theorem TD.Inv.cols_le {t : TD α} (h : t.Inv) (hr : 0 < t.numRows) : t.numCols ≤ t.data.length := by
-  rw [h.len]
-  exact Nat.le_mul_of_pos_right _ hr
+/-- a successful `pop_row` is `remove_row(num_rows - 1)` -/
+theorem hs_popRow_some (m : Mode) (t : TD α) (h : t.Inv) (h0 : t.numRows ≠ 0) (d : DrainRow α)
+    (hd : t.removeRow m (t.numRows - 1) = .ok d) : t.popRow m = .ok (some d) := by
+  rw [(C07_pop_row m t h).2 h0, hd]
+  rfl
 
-theorem TD.Inv.rows_le {t : TD α} (h : t.Inv) (hc : 0 < t.numCols) : t.numRows ≤ t.data.length := by
-  rw [h.len]
-  exact Nat.le_mul_of_pos_left _ hc
+theorem hs_popCol_some (m : Mode) (t : TD α) (h : t.Inv) (h0 : t.numCols ≠ 0) (d : DrainCol α)
+    (hd : t.removeCol m (t.numCols - 1) = .ok d) : t.popCol m = .ok (some d) := by
+  rw [(C07_pop_col m t h).2 h0, hd]
+  rfl
 
-theorem TD.Inv.cols_pos {t : TD α} (h : t.Inv) {r : Nat} (hr : r < t.numRows) : 0 < t.numCols := by
-  have := h.zero
-  omega
+/-- the array after `remove_col(i)`, any consumption, drop — as `hstep` computes it -/
+theorem hs_step_removeCol (e : HEnv) (t : TD α) (h : t.Inv) (i : Nat) (hi : i < t.numCols) (w : List Bool) :
+    ∃ d ys d' t' dropped, t.removeCol e.m i = .ok d ∧ d.run e.m w = .ok (ys, d') ∧ d'.drop e.m = .ok (t', dropped) ∧
+      hstep e t (.removeCol i w) = t' ∧ hres e t (.removeCol i w) = .ok () ∧
+      ys = (Seq.ends (t.colCells i) w).1 ∧ dropped = (Seq.ends (t.colCells i) w).2 ∧
+      t'.Inv ∧ t'.grid = (if t.numCols = 1 then [] else t.grid.map fun ρ => ρ.eraseIdx i) ∧
+      (ys ++ dropped).Perm (t.colCells i) := by
+  obtain ⟨d, ys, d', t', dropped, hd, hrun, hdrop, h1, h2, h3, h4, h5⟩ := C07_remove_col_run e.m t h i hi w
+  refine ⟨d, ys, d', t', dropped, hd, hrun, hdrop, ?_, ?_, h1, h2, h3, h4, h5⟩
+  · simp only [hstep, hd, ok_bind, hrun, hdrop]
+  · simp only [hres, hd, ok_bind, hrun, hdrop, pure_eq]
 
-theorem TD.Inv.rows_pos {t : TD α} (h : t.Inv) {c : Nat} (hc : c < t.numCols) : 0 < t.numRows := by
-  have := h.zero
-  omega
+theorem hs_step_removeCol_reject (e : HEnv) (t : TD α) (i : Nat) (hi : ¬ i < t.numCols) (w : List Bool) :
+    hstep e t (.removeCol i w) = t ∧ hres e t (.removeCol i w) = .error .panic := by
+  have hd := C07_remove_col_reject e.m t i hi
+  constructor
+  · simp only [hstep, hd, err_bind]
+  · simp only [hres, hd, err_bind]
 
-theorem TD.Inv.cols_word {t : TD α} (h : t.Inv) : t.numCols < WORD := by
-  rcases Nat.eq_zero_or_pos t.numRows with h0 | h0
-  · rw [h.zero.2 h0]; unfold WORD; omega
-  · have := h.cols_le h0
-    have := h.word
-    omega
+/-- the same for `pop_col` on an array with columns -/
+theorem hs_step_popCol (e : HEnv) (t : TD α) (h : t.Inv) (h0 : t.numCols ≠ 0) (w : List Bool) :
+    hstep e t (.popCol w) = hstep e t (.removeCol (t.numCols - 1) w) ∧
+    hres e t (.popCol w) = hres e t (.removeCol (t.numCols - 1) w) := by
+  obtain ⟨d, ys, d', t', dropped, hd, hrun, hdrop, hs, hr, _⟩ := hs_step_removeCol e t h (t.numCols - 1) (by omega) w
+  rw [hs, hr]
+  have hp := hs_popCol_some e.m t h h0 d hd
+  constructor
+  · simp only [hstep, hp, ok_bind, hrun, hdrop, pure_eq]
+  · simp only [hres, hp, ok_bind, hrun, hdrop, pure_eq]
 
-theorem TD.Inv.rows_word {t : TD α} (h : t.Inv) : t.numRows < WORD := by
-  rcases Nat.eq_zero_or_pos t.numCols with h0 | h0
-  · rw [h.zero.1 h0]; unfold WORD; omega
-  · have := h.rows_le h0
-    have := h.word
-    omega
+theorem hs_step_popCol_none (e : HEnv) (t : TD α) (h : t.Inv) (h0 : t.numCols = 0) (w : List Bool) :
+    hstep e t (.popCol w) = t ∧ hres e t (.popCol w) = .ok () := by
+  have hp := (C07_pop_col e.m t h).1 h0
+  constructor
+  · simp only [hstep, hp, ok_bind, pure_eq]
+  · simp only [hres, hp, ok_bind, pure_eq]
 
-/-- replacing the data by a buffer of the same length keeps the invariant -/
-theorem TD.Inv.with_data {t : TD α} (h : t.Inv) (d : List α) (hd : d.length = t.data.length) :
-    ({ t with data := d } : TD α).Inv :=
-  ⟨by show d.length = _; rw [hd]; exact h.len, h.zero, by show d.length < WORD; rw [hd]; exact h.word⟩
+/-- `remove_col(i)`, any consumption, `mem::forget` -/
+theorem hs_step_removeColLeak (e : HEnv) (t : TD α) (h : t.Inv) (i : Nat) (hi : i < t.numCols) (w : List Bool) :
+    ∃ d ys d', t.removeCol e.m i = .ok d ∧ d.run e.m w = .ok (ys, d') ∧
+      hstep e t (.removeColLeak i w) = (⟨[], 0, 0⟩ : TD α) ∧ hres e t (.removeColLeak i w) = .ok () ∧
+      (ys ++ d'.leak.2).Perm t.data := by
+  obtain ⟨d, ys, d', hd, hrun, hl, _, hp⟩ := C12_leak_drain_col_run e.m t h i hi w
+  refine ⟨d, ys, d', hd, hrun, ?_, ?_, hp⟩
+  · simp only [hstep, hd, ok_bind, hrun, pure_eq]
+    exact hl
+  · simp only [hres, hd, ok_bind, hrun, pure_eq]
 
-/-- an in-place operation that keeps the length keeps the invariant (a failed one leaves the array) -/
-theorem TD.withData_inv (t : TD α) (h : t.Inv) (r : Res (List α))
-    (hr : ∀ d, r = .ok d → d.length = t.data.length) : (t.withData r).Inv := by
-  cases r with
-  | error e => exact h
-  | ok d => exact h.with_data d (hr d rfl)
-
-/-- a cell permutation of the whole array keeps the length -/
-theorem hs_gather_length (t : TD α) (h : t.Inv) (g : Nat × Nat → Nat × Nat)
-    (hg : ∀ c r, c < t.numCols → r < t.numRows → (g (c, r)).1 < t.numCols ∧ (g (c, r)).2 < t.numRows) :
-    (gather t.data (t.asView.mapCells g)).length = t.data.length :=
-  gather_mapCells_length t.data (C02_owned_as_view t h).1 g hg
-
-/-- the owned array's unchecked row accessor returns the row window -/
-theorem hs_getUncheckedRow (m : Mode) (t : TD α) (h : t.Inv) (r : Nat) (hr : r < t.asView.numRows) :
-    t.getUncheckedRow m r = .ok (t.asView.rowWin r) := by
-  have hr' : r < t.numRows := hr
-  obtain ⟨_, _, _, _, _, _, h7, _⟩ := C02_owned_valid m t h 0 r (h.cols_pos hr') hr'
-  rw [h7]
-  show _ = Except.ok (⟨t.asView.pos 0 r, t.numCols⟩ : Win)
-  rw [(C02_owned_as_view t h).2]
-
-theorem hs_indexRow (m : Mode) (t : TD α) (h : t.Inv) (r : Nat) (hr : r < t.asView.numRows) :
-    t.indexRow m r = .ok (t.asView.rowWin r) := by
-  have hr' : r < t.numRows := hr
-  obtain ⟨_, _, _, _, h5, _⟩ := C02_owned_valid m t h 0 r (h.cols_pos hr') hr'
-  rw [h5]
-  show _ = Except.ok (⟨t.asView.pos 0 r, t.numCols⟩ : Win)
-  rw [(C02_owned_as_view t h).2]
+theorem hs_step_removeColLeak_reject (e : HEnv) (t : TD α) (i : Nat) (hi : ¬ i < t.numCols) (w : List Bool) :
+    hstep e t (.removeColLeak i w) = t ∧ hres e t (.removeColLeak i w) = .error .panic := by
+  have hd := C07_remove_col_reject e.m t i hi
+  constructor
+  · simp only [hstep, hd, err_bind]
+  · simp only [hres, hd, err_bind]
 
 /-! ### the invariant after each operation -/
 
@@ -95,520 +93,257 @@ theorem hs_inv_fromVec (t : TD α) (h : t.Inv) (c r : Nat) (v : List α) :
     rw [e]; exact hi
   · rw [(C20_from_vec c r v).2 hs]; exact h
 
-theorem histCap_lt : histCap < WORD := by unfold histCap WORD; omega
+theorem hs_inv_insertRow (m : Mode) (cap : Nat) (hcap : cap < WORD) (t : TD α) (h : t.Inv) (i : Nat) (it : IterScript α)
+    (spare : List α) (hop : it.claimed ≤ spare.length) : (t.insertRow m cap i it spare).t.Inv :=
+  (C11_insert_row m cap t h i it spare (Or.inl hop) hcap).2.2.1
 
-theorem hs_inv_insertRow (m : Mode) (t : TD α) (h : t.Inv) (i : Nat) (it : IterScript α) (spare : List α)
-    (hop : it.claimed ≤ spare.length) : (t.insertRow m histCap i it spare).t.Inv :=
-  (C11_insert_row m histCap t h i it spare (Or.inl hop) histCap_lt).2.2.1
+theorem hs_inv_insertCol (m : Mode) (cap : Nat) (hcap : cap < WORD) (t : TD α) (h : t.Inv) (i : Nat) (it : IterScript α)
+    (spare : List α) (hop : it.claimed ≤ spare.length) : (t.insertCol m cap i it spare).t.Inv :=
+  (C11_insert_col m cap t h i it spare (Or.inl hop) hcap).2.2.1
 
-theorem hs_inv_insertCol (m : Mode) (t : TD α) (h : t.Inv) (i : Nat) (it : IterScript α) (spare : List α)
-    (hop : it.claimed ≤ spare.length) : (t.insertCol m histCap i it spare).t.Inv :=
-  (C11_insert_col m histCap t h i it spare (Or.inl hop) histCap_lt).2.2.1
-
-/-- `remove_row(i)` then dropping the drain: the result and its grid, or the unchanged array -/
-theorem hs_removeRow (m : Mode) (t : TD α) (h : t.Inv) (i : Nat) :
-    (i < t.numRows → ∃ d, t.removeRow m i = .ok d ∧ d.drop.1.Inv ∧ d.drop.1.grid = t.grid.eraseIdx i) ∧
-    (¬ i < t.numRows → t.removeRow m i = .error .panic) := by
-  refine ⟨fun hi => ?_, C07_remove_row_reject m t i⟩
-  obtain ⟨d, hd, _⟩ := C07_remove_row m t h i hi
-  obtain ⟨_, h2, _, _, _, h6⟩ := C07_remove_row_drop m t h i hi d hd d.items
-  exact ⟨d, hd, h2, h6⟩
-
-theorem hs_inv_removeRow (m : Mode) (t : TD α) (h : t.Inv) (i : Nat) :
-    (match t.removeRow m i with | .ok d => d.drop.1 | .error _ => t).Inv := by
+theorem hs_inv_removeRow (e : HEnv) (t : TD α) (h : t.Inv) (i : Nat) (w : List Bool) :
+    (hstep e t (.removeRow i w)).Inv := by
+  simp only [hstep]
   by_cases hi : i < t.numRows
-  · obtain ⟨d, e, hinv, _⟩ := (hs_removeRow m t h i).1 hi
-    rw [e]; exact hinv
-  · rw [(hs_removeRow m t h i).2 hi]; exact h
+  · obtain ⟨d, hd, _, _, hinv, _⟩ := C07_remove_row_run e.m t h i hi w
+    rw [hd]; exact hinv
+  · rw [C07_remove_row_reject e.m t i hi]; exact h
 
-/-- `remove_col(i)` then dropping the (unconsumed) drain -/
-theorem hs_removeCol (m : Mode) (t : TD α) (h : t.Inv) (i : Nat) :
-    (i < t.numCols → ∃ d t' dropped, t.removeCol m i = .ok d ∧ d.drop m = .ok (t', dropped) ∧ t'.Inv ∧
-      t'.grid = (if t.numCols = 1 then [] else t.grid.map fun ρ => ρ.eraseIdx i)) ∧
-    (¬ i < t.numCols → t.removeCol m i = .error .panic) := by
-  refine ⟨fun hi => ?_, C07_remove_col_reject m t i⟩
-  obtain ⟨d, hd, hb, hc, hnc, hnr, _, hwf, _⟩ := C07_remove_col m t h i hi
-  obtain ⟨t', dropped, e, hinv, _, _, _, _, hg⟩ := C07_remove_col_drop m t h i hi d hb hc hnc hnr t.numRows hwf
-  exact ⟨d, t', dropped, hd, e, hinv, hg⟩
+theorem hs_inv_removeRowLeak (e : HEnv) (t : TD α) (h : t.Inv) (i : Nat) (w : List Bool) :
+    (hstep e t (.removeRowLeak i w)).Inv := by
+  simp only [hstep]
+  by_cases hi : i < t.numRows
+  · obtain ⟨d, hd, hinv, _⟩ := C12_leak_drain_row_run e.m t h i hi w
+    rw [hd]; exact hinv
+  · rw [C07_remove_row_reject e.m t i hi]; exact h
 
-theorem hs_inv_removeCol (m : Mode) (t : TD α) (h : t.Inv) (i : Nat) :
-    (match t.removeCol m i with
-      | .ok d => (match d.drop m with | .ok (t', _) => t' | .error _ => t)
-      | .error _ => t).Inv := by
-  by_cases hi : i < t.numCols
-  · obtain ⟨d, t', dropped, e1, e2, hinv, _⟩ := (hs_removeCol m t h i).1 hi
-    rw [e1]; simp only [e2]; exact hinv
-  · rw [(hs_removeCol m t h i).2 hi]; exact h
-
-theorem hs_popRow (m : Mode) (t : TD α) (h : t.Inv) :
-    hstep m t .popRow = (if t.numRows = 0 then t else hstep m t (.removeRow (t.numRows - 1))) := by
+theorem hs_inv_popRow (e : HEnv) (t : TD α) (h : t.Inv) (w : List Bool) :
+    (hstep e t (.popRow w)).Inv := by
+  simp only [hstep]
   by_cases h0 : t.numRows = 0
-  · rw [if_pos h0]
-    simp only [hstep, (C07_pop_row m t h).1 h0]
-  · rw [if_neg h0]
-    simp only [hstep, (C07_pop_row m t h).2 h0]
-    cases t.removeRow m (t.numRows - 1) <;> rfl
+  · rw [(C07_pop_row e.m t h).1 h0]; exact h
+  · obtain ⟨d, hd, _, _, hinv, _⟩ := C07_remove_row_run e.m t h (t.numRows - 1) (by omega) w
+    rw [hs_popRow_some e.m t h h0 d hd]; exact hinv
 
-theorem hs_popCol (m : Mode) (t : TD α) (h : t.Inv) :
-    hstep m t .popCol = (if t.numCols = 0 then t else hstep m t (.removeCol (t.numCols - 1))) := by
+theorem hs_inv_removeCol (e : HEnv) (t : TD α) (h : t.Inv) (i : Nat) (w : List Bool) :
+    (hstep e t (.removeCol i w)).Inv := by
+  by_cases hi : i < t.numCols
+  · obtain ⟨_, _, _, t', _, _, _, _, hs, _, _, _, hinv, _⟩ := hs_step_removeCol e t h i hi w
+    rw [hs]; exact hinv
+  · rw [(hs_step_removeCol_reject e t i hi w).1]; exact h
+
+theorem hs_inv_popCol (e : HEnv) (t : TD α) (h : t.Inv) (w : List Bool) :
+    (hstep e t (.popCol w)).Inv := by
   by_cases h0 : t.numCols = 0
-  · rw [if_pos h0]
-    simp only [hstep, (C07_pop_col m t h).1 h0]
-  · rw [if_neg h0]
-    simp only [hstep, (C07_pop_col m t h).2 h0]
-    cases t.removeCol m (t.numCols - 1) <;> rfl
+  · rw [(hs_step_popCol_none e t h h0 w).1]; exact h
+  · rw [(hs_step_popCol e t h h0 w).1]; exact hs_inv_removeCol e t h _ w
 
-theorem hs_inv_clear (t : TD α) : t.clear.Inv :=
+theorem hs_inv_empty : (⟨[], 0, 0⟩ : TD α).Inv :=
   ⟨rfl, Iff.rfl, by show 0 < WORD; unfold WORD; omega⟩
+
+theorem hs_inv_removeColLeak (e : HEnv) (t : TD α) (h : t.Inv) (i : Nat) (w : List Bool) :
+    (hstep e t (.removeColLeak i w)).Inv := by
+  by_cases hi : i < t.numCols
+  · obtain ⟨_, _, _, _, _, hs, _⟩ := hs_step_removeColLeak e t h i hi w
+    rw [hs]; exact hs_inv_empty
+  · rw [(hs_step_removeColLeak_reject e t i hi w).1]; exact h
 
 theorem hs_inv_swapDimensions (t : TD α) (h : t.Inv) : t.swapDimensions.Inv :=
   ⟨by show t.data.length = t.numRows * t.numCols; rw [h.len, Nat.mul_comm], h.zero.symm, h.word⟩
 
-theorem hs_inv_fill (t : TD α) (h : t.Inv) (x : α) : ({ t with data := t.fill x } : TD α).Inv :=
-  h.with_data _ (by simp [TD.fill])
+/-- **one step preserves the shape invariant** -/
+theorem hs_step_inv (e : HEnv) (he : e.ok) (t : TD α) (h : t.Inv) (op : HOp α) (hop : op.wf) :
+    (hstep e t op).Inv := by
+  cases op with
+  | fromVec c r v => exact hs_inv_fromVec t h c r v
+  | insertRow i it spare => exact hs_inv_insertRow e.m e.cap he t h i it spare hop
+  | insertCol i it spare => exact hs_inv_insertCol e.m e.cap he t h i it spare hop
+  | removeRow i w => exact hs_inv_removeRow e t h i w
+  | removeCol i w => exact hs_inv_removeCol e t h i w
+  | popRow w => exact hs_inv_popRow e t h w
+  | popCol w => exact hs_inv_popCol e t h w
+  | removeRowLeak i w => exact hs_inv_removeRowLeak e t h i w
+  | removeColLeak i w => exact hs_inv_removeColLeak e t h i w
+  | clear => exact hs_inv_empty
+  | swapDimensions => exact hs_inv_swapDimensions t h
+  | capacityCall => exact h
+  | takeInto k => exact hs_inv_empty
+  | inplace op => exact hs_inv_inplace e.m e.lim t h op hop
 
-/-- `swap` with any out-of-range index panics (no bound on the arguments needed) -/
-theorem hs_swap_reject (m : Mode) (t : TD α) (c1 r1 c2 r2 : Nat)
-    (hn : ¬ (c1 < t.numCols ∧ c2 < t.numCols ∧ r1 < t.numRows ∧ r2 < t.numRows)) :
-    t.swap m c1 r1 c2 r2 = .error .panic := by
-  unfold TD.swap
-  by_cases hc : c1 < t.numCols ∧ c2 < t.numCols
-  · have hr : ¬ (r1 < t.numRows ∧ r2 < t.numRows) := fun hr => hn ⟨hc.1, hc.2, hr.1, hr.2⟩
-    simp [hc, hr]
-  · simp [hc]
+/-! ### the outcome the caller sees -/
 
-theorem hs_swapCellG_cells (t : TD α) {c1 r1 c2 r2 : Nat}
-    (hr : c1 < t.numCols ∧ c2 < t.numCols ∧ r1 < t.numRows ∧ r2 < t.numRows) :
-    ∀ c r, c < t.numCols → r < t.numRows →
-      (swapCellG (c1, r1) (c2, r2) (c, r)).1 < t.numCols ∧ (swapCellG (c1, r1) (c2, r2) (c, r)).2 < t.numRows := by
-  intro c r hc hr'
-  unfold swapCellG
-  by_cases h1 : (c, r) = (c1, r1)
-  · rw [if_pos h1]; exact ⟨hr.2.1, hr.2.2.2⟩
-  · rw [if_neg h1]
-    by_cases h2 : (c, r) = (c2, r2)
-    · rw [if_pos h2]; exact ⟨hr.1, hr.2.2.1⟩
-    · rw [if_neg h2]; exact ⟨hc, hr'⟩
+theorem hs_res_removeRow (m : Mode) (t : TD α) (h : t.Inv) (i : Nat) :
+    (t.removeRow m i).map (fun _ => ()) = .ok () ∨ (t.removeRow m i).map (fun _ => ()) = .error .panic := by
+  by_cases hi : i < t.numRows
+  · obtain ⟨d, hd, _⟩ := C07_remove_row m t h i hi
+    rw [hd]; exact Or.inl rfl
+  · rw [C07_remove_row_reject m t i hi]; exact Or.inr rfl
 
-theorem hs_inv_swap (m : Mode) (t : TD α) (h : t.Inv) (c1 r1 c2 r2 : Nat) :
-    (t.withData (t.swap m c1 r1 c2 r2)).Inv := by
-  apply t.withData_inv h
-  intro d hd
-  by_cases hr : c1 < t.numCols ∧ c2 < t.numCols ∧ r1 < t.numRows ∧ r2 < t.numRows
-  · have hcw := h.cols_word
-    have hrw := h.rows_word
-    rw [(C13_swap_owned m t h c1 r1 c2 r2 ⟨by omega, by omega, by omega, by omega⟩).1 hr] at hd
-    injection hd with hd
-    rw [← hd]
-    exact hs_gather_length t h _ (hs_swapCellG_cells t hr)
-  · rw [hs_swap_reject m t c1 r1 c2 r2 hr] at hd
-    cases hd
-
-theorem hs_swapRows (m : Mode) (t : TD α) (h : t.Inv) (r1 r2 : Nat) :
-    ((r1 < t.numRows ∧ r2 < t.numRows) →
-      t.swapRows m r1 r2 = .ok (gather t.data (t.asView.mapCells (swapRowsG r1 r2)))) ∧
-    (¬ (r1 < t.numRows ∧ r2 < t.numRows) → t.swapRows m r1 r2 = .error .panic) := by
-  refine ⟨fun hr => ?_, fun hn => by simp [TD.swapRows, hn]⟩
-  have hrw := h.rows_word
-  exact (C13_swap_rows_owned m t h r1 r2 ⟨by omega, by omega⟩).1 hr
-
-theorem hs_swapRowsG_cells (t : TD α) {r1 r2 : Nat} (hr : r1 < t.numRows ∧ r2 < t.numRows) :
-    ∀ c r, c < t.numCols → r < t.numRows →
-      (swapRowsG r1 r2 (c, r)).1 < t.numCols ∧ (swapRowsG r1 r2 (c, r)).2 < t.numRows :=
-  fun _ _ hc hr' => ⟨hc, swapIdx_lt hr.1 hr.2 hr'⟩
-
-theorem hs_swapColsG_cells (t : TD α) {c1 c2 : Nat} (hc : c1 < t.numCols ∧ c2 < t.numCols) :
-    ∀ c r, c < t.numCols → r < t.numRows →
-      (swapColsG c1 c2 (c, r)).1 < t.numCols ∧ (swapColsG c1 c2 (c, r)).2 < t.numRows :=
-  fun _ _ hc' hr => ⟨swapIdx_lt hc.1 hc.2 hc', hr⟩
-
-theorem hs_inv_swapRows (m : Mode) (t : TD α) (h : t.Inv) (r1 r2 : Nat) :
-    (t.withData (t.swapRows m r1 r2)).Inv := by
-  apply t.withData_inv h
-  intro d hd
-  by_cases hr : r1 < t.numRows ∧ r2 < t.numRows
-  · rw [(hs_swapRows m t h r1 r2).1 hr] at hd
-    injection hd with hd
-    rw [← hd]
-    exact hs_gather_length t h _ (hs_swapRowsG_cells t hr)
-  · rw [(hs_swapRows m t h r1 r2).2 hr] at hd
-    cases hd
-
-theorem hs_swapCols (t : TD α) (h : t.Inv) (c1 c2 : Nat) :
-    ((c1 < t.numCols ∧ c2 < t.numCols) →
-      t.acc.swapCols t.data c1 c2 = .ok (gather t.data (t.asView.mapCells (swapColsG c1 c2)))) ∧
-    (¬ (c1 < t.numCols ∧ c2 < t.numCols) → t.acc.swapCols t.data c1 c2 = .error .panic) :=
-  C13_swap_cols t.asView t.data (C02_owned_as_view t h).1 t.acc (C13_acc_owned t h) c1 c2
-
-theorem hs_inv_swapCols (t : TD α) (h : t.Inv) (c1 c2 : Nat) :
-    (t.withData (t.acc.swapCols t.data c1 c2)).Inv := by
-  apply t.withData_inv h
-  intro d hd
-  by_cases hc : c1 < t.numCols ∧ c2 < t.numCols
-  · rw [(hs_swapCols t h c1 c2).1 hc] at hd
-    injection hd with hd
-    rw [← hd]
-    exact hs_gather_length t h _ (hs_swapColsG_cells t hc)
-  · rw [(hs_swapCols t h c1 c2).2 hc] at hd
-    cases hd
-
-theorem hs_inv_copyFromSlice (t : TD α) (h : t.Inv) (src : List α) :
-    (t.withData (t.copyFromSlice src)).Inv := by
-  apply t.withData_inv h
-  intro d hd
-  unfold TD.copyFromSlice at hd
-  by_cases hl : t.data.length = src.length
-  · rw [if_neg (by simpa using hl)] at hd
-    injection hd with hd
-    rw [← hd, hl]
-  · rw [if_pos hl] at hd
-    cases hd
-
-theorem hs_inv_translate (m : Mode) (t : TD α) (h : t.Inv) (mc mr : Nat) :
-    (t.withData (t.acc.translateWithWrap m (t.getUncheckedRow m) t.data (mc, mr))).Inv := by
-  apply t.withData_inv h
-  intro d hd
-  by_cases hm : mc ≤ t.numCols ∧ mr ≤ t.numRows
-  · rw [C15_translate m t.asView t.data (C02_owned_as_view t h).1 t.acc (C13_acc_owned t h) _
-      (hs_getUncheckedRow m t h) (mc, mr) hm] at hd
-    injection hd with hd
-    rw [← hd]
-    exact hs_gather_length t h _
-      (C15_maps_bijective t.numCols t.numRows mc mr _ (List.mem_cons_self ..)).1
-  · rw [C15_translate_reject m t.acc _ t.data (mc, mr) hm] at hd
-    cases hd
-
-theorem hs_flipRows (m : Mode) (t : TD α) (h : t.Inv) :
-    t.acc.flipRows m t.data = .ok (gather t.data (t.asView.mapCells (flipRowsG t.numRows))) :=
-  C15_flip_rows m t.asView t.data (C02_owned_as_view t h).1 t.acc (C13_acc_owned t h)
-
-theorem hs_flipCols (t : TD α) (h : t.Inv) :
-    t.acc.flipCols t.data = .ok (gather t.data (t.asView.mapCells (flipColsG t.numCols))) :=
-  C15_flip_cols t.asView t.data (C02_owned_as_view t h).1 t.acc (C13_acc_owned t h)
-
-theorem hs_flipRowsG_cells (t : TD α) :
-    ∀ c r, c < t.numCols → r < t.numRows →
-      (flipRowsG t.numRows (c, r)).1 < t.numCols ∧ (flipRowsG t.numRows (c, r)).2 < t.numRows :=
-  fun _ _ hc hr => ⟨hc, by simp only [flipRowsG]; omega⟩
-
-theorem hs_flipColsG_cells (t : TD α) :
-    ∀ c r, c < t.numCols → r < t.numRows →
-      (flipColsG t.numCols (c, r)).1 < t.numCols ∧ (flipColsG t.numCols (c, r)).2 < t.numRows :=
-  fun _ _ hc hr => ⟨by simp only [flipColsG]; omega, hr⟩
-
-theorem hs_inv_flipRows (m : Mode) (t : TD α) (h : t.Inv) : (t.withData (t.acc.flipRows m t.data)).Inv := by
-  rw [hs_flipRows m t h]
-  exact h.with_data _ (hs_gather_length t h _ (hs_flipRowsG_cells t))
-
-theorem hs_inv_flipCols (t : TD α) (h : t.Inv) : (t.withData (t.acc.flipCols t.data)).Inv := by
-  rw [hs_flipCols t h]
-  exact h.with_data _ (hs_gather_length t h _ (hs_flipColsG_cells t))
-
-theorem hs_inv_sortByRow (m : Mode) (t : TD α) (h : t.Inv) (le : α → α → Bool) (row : Nat) :
-    (t.withData (t.acc.sortByRow (t.indexRow m) t.data le row)).Inv := by
-  apply t.withData_inv h
-  intro d hd
-  have hv := (C02_owned_as_view t h).1
-  have hs := C16_sort_by_row t.asView t.data hv t.acc (C13_acc_owned t h) (t.indexRow m) (hs_indexRow m t h) le row
-  by_cases hr : row < t.asView.numRows
-  · rw [hs.1 hr] at hd
-    injection hd with hd
-    rw [← hd]
-    have hin := VW.rowWin_inside hv hr
-    have hl : (readWin t.data (t.asView.rowWin row)).length = t.numCols := by
-      simp only [readWin, List.length_take, List.length_drop]
-      have : (t.asView.rowWin row).len = t.numCols := rfl
-      omega
-    have hp := stablePerm_perm le (readWin t.data (t.asView.rowWin row))
-    rw [hl] at hp
-    have hb := (C16_cols_bijective t.numCols t.numRows _ hp).1
-    exact hs_gather_length t h _ (fun c r hc hr' => ⟨(hb c r hc hr').1, by rw [(hb c r hc hr').2]; exact hr'⟩)
-  · rw [hs.2 hr] at hd
-    cases hd
-
-theorem hs_inv_sortByCol (m : Mode) (t : TD α) (h : t.Inv) (le : α → α → Bool) (col : Nat) :
-    (t.withData (t.acc.sortByCol (t.col m)
-      (fun b r1 r2 => ({ t with data := b } : TD α).swapRows m r1 r2) t.data le col)).Inv := by
-  apply t.withData_inv h
-  intro d hd
-  have hv := (C02_owned_as_view t h).1
-  have hcw := h.cols_word
-  have hcol : ∀ c, c < t.asView.numCols → ∃ it, t.col m c = .ok it ∧ it.WF t.asView.numRows t.data.length ∧
-      it.abs t.asView.numRows = (List.range t.asView.numRows).map fun r => t.asView.pos c r := by
-    intro c hc
-    have hc' : c < t.numCols := hc
-    obtain ⟨it, e, hwf, habs⟩ := (C09_col_owned m t h c (by omega)).1 hc'
-    refine ⟨it, e, hwf, ?_⟩
-    show it.abs t.numRows = _
-    rw [habs]
-    apply List.map_congr_left
-    intro r _
-    exact ((C02_owned_as_view t h).2 c r).symm
-  have hsw : SwapRowsSpec t.asView t.data.length
-      (fun b r1 r2 => ({ t with data := b } : TD α).swapRows m r1 r2) := by
-    intro b r1 r2 hb hr1 hr2
-    have hbi := h.with_data b hb
-    have e := (hs_swapRows m _ hbi r1 r2).1 ⟨hr1, hr2⟩
-    have hview : ({ t with data := b } : TD α).asView = t.asView := by
-      simp only [TD.asView, TD.win, hb]
-    rw [hview] at e
-    exact e
-  have hs := C17_sort_by_col t.asView t.data hv t.acc (C13_acc_owned t h) (t.col m) hcol _ hsw le col
-  by_cases hc : col < t.asView.numCols
-  · rw [hs.1 hc] at hd
-    injection hd with hd
-    rw [← hd]
-    have hp := stablePerm_perm le ((List.range t.asView.numRows).filterMap fun r => t.data[t.asView.pos col r]?)
-    rw [col_keys_length t.asView t.data hv hc] at hp
-    have hb := (C17_rows_bijective t.numCols t.numRows _ hp).1
-    exact hs_gather_length t h _ (fun c r hc' hr => ⟨by rw [(hb c r hc' hr).2]; exact hc', (hb c r hc' hr).1⟩)
-  · rw [hs.2 hc] at hd
-    cases hd
-
-/-! ### rows-of-cells readings -/
-
-/-- the grid whose cell `(c,r)` is `X c r` -/
-def cellsGrid (R C : Nat) (X : Nat → Nat → Option α) : List (List α) :=
-  (List.range R).map fun r => (List.range C).filterMap fun c => X c r
-
-theorem cellsGrid_congr (R C : Nat) (X Y : Nat → Nat → Option α)
-    (hXY : ∀ c r, c < C → r < R → X c r = Y c r) : cellsGrid R C X = cellsGrid R C Y := by
-  unfold cellsGrid
-  apply List.map_congr_left
-  intro r hr
-  apply filterMap_congr_mem
-  intro c hc
-  exact hXY c r (List.mem_range.1 hc) (List.mem_range.1 hr)
-
-theorem hs_take_drop_cells (d : List α) (s C : Nat) (h : s + C ≤ d.length) :
-    (d.drop s).take C = (List.range C).filterMap fun c => d[s + c]? := by
-  apply List.ext_getElem?
-  intro i
-  rw [filterMap_getElem?_of_isSome]
-  · rw [List.getElem?_take]
-    by_cases hi : i < C
-    · rw [if_pos hi, List.getElem?_drop, List.getElem?_range hi]
-      rfl
-    · rw [if_neg hi, List.getElem?_eq_none (by simpa using hi)]
-      rfl
-  · intro c hc
-    have hc' := List.mem_range.1 hc
-    rw [List.getElem?_eq_getElem (by omega)]
-    rfl
-
-theorem hs_toRows_cells (C R : Nat) (d : List α) (hl : d.length = C * R) (hz : C = 0 → R = 0) :
-    toRows C d = cellsGrid R C (fun c r => d[r * C + c]?) := by
-  unfold toRows cellsGrid
-  rcases Nat.eq_zero_or_pos C with h0 | hC
-  · rw [hz h0, h0]; simp
-  · rw [hl, Nat.mul_div_cancel_left _ hC]
-    apply List.map_congr_left
+/-- **no safe call ends in undefined behaviour**: the outcome is `ok` or `panic` -/
+theorem hs_step_res (e : HEnv) (he : e.ok) (t : TD α) (h : t.Inv) (op : HOp α) (hop : op.wf) :
+    hres e t op ≠ .error .ub ∧ hres e t op ≠ .error .fuel := by
+  have okp : ∀ r : Res Unit, (r = .ok () ∨ r = .error .panic) → r ≠ .error .ub ∧ r ≠ .error .fuel := by
     intro r hr
-    have hr' := List.mem_range.1 hr
-    apply hs_take_drop_cells
-    rw [hl]
-    exact row_end_le hr'
-
-theorem hs_grid_cells (t : TD α) (h : t.Inv) :
-    t.grid = cellsGrid t.numRows t.numCols (fun c r => t.data[r * t.numCols + c]?) :=
-  hs_toRows_cells _ _ _ h.len h.zero.1
-
-theorem hs_grid_of_data (t : TD α) (h : t.Inv) (d : List α) (hd : d.length = t.data.length) :
-    ({ t with data := d } : TD α).grid = cellsGrid t.numRows t.numCols (fun c r => d[r * t.numCols + c]?) :=
-  hs_grid_cells _ (h.with_data d hd)
-
-theorem hs_headC (t : TD α) (h : t.Inv) : (t.grid.head?.map List.length).getD 0 = t.numCols := by
-  have hl := h.grid_length
-  have hrow := t.grid_row_length
-  match hg : t.grid with
-  | [] =>
-    rw [hg] at hl
-    have : t.numCols = 0 := h.zero.2 hl.symm
-    simp [this]
-  | ρ :: rest =>
-    rw [hg] at hrow
-    simp [hrow ρ (List.mem_cons_self ..)]
-
-theorem hs_grid_eq_nil (t : TD α) (h : t.Inv) : t.grid = [] ↔ t.numRows = 0 := by
-  rw [← h.grid_length]
-  exact List.length_eq_zero_iff.symm
-
-theorem hs_gcell (t : TD α) (h : t.Inv) (c r : Nat) (hc : c < t.numCols) :
-    gcell t.grid c r = t.data[r * t.numCols + c]? := by
-  have hlen := h.len
-  have hdiv : t.data.length / t.numCols = t.numRows := by
-    rw [hlen, Nat.mul_div_cancel_left _ (by omega)]
-  unfold gcell TD.grid toRows
-  rw [List.getElem?_map, hdiv]
-  by_cases hr : r < t.numRows
-  · rw [List.getElem?_range hr]
-    show ((t.data.drop (r * t.numCols)).take t.numCols)[c]? = _
-    rw [List.getElem?_take, if_pos hc, List.getElem?_drop]
-  · rw [List.getElem?_eq_none (by simpa using hr)]
-    have : t.numCols * t.numRows ≤ r * t.numCols := by
-      rw [Nat.mul_comm]; exact Nat.mul_le_mul_right _ (by omega)
-    rw [List.getElem?_eq_none (by omega)]
-    rfl
-
-/-- a cell permutation of the array, read on the rows of cells -/
-theorem hs_grid_gather (t : TD α) (h : t.Inv) (f : Nat × Nat → Nat × Nat)
-    (hf : ∀ c r, c < t.numCols → r < t.numRows → (f (c, r)).1 < t.numCols ∧ (f (c, r)).2 < t.numRows) :
-    ({ t with data := gather t.data (t.asView.mapCells f) } : TD α).grid
-      = cellsGrid t.numRows t.numCols (fun c r => t.data[(f (c, r)).2 * t.numCols + (f (c, r)).1]?) := by
-  rw [hs_grid_of_data t h _ (hs_gather_length t h f hf)]
-  apply cellsGrid_congr
-  intro c r hc hr
-  obtain ⟨hv, hpos⟩ := C02_owned_as_view t h
-  have h3 := (C04_frame_perm t.asView t.data hv f hf).2.2 c r hc hr
-  rw [hpos, hpos] at h3
-  exact h3
-
-theorem hs_gridPerm (t : TD α) (h : t.Inv) (f : Nat × Nat → Nat × Nat)
-    (hf : ∀ c r, c < t.numCols → r < t.numRows → (f (c, r)).1 < t.numCols ∧ (f (c, r)).2 < t.numRows) :
-    gridPerm t.grid f
-      = cellsGrid t.numRows t.numCols (fun c r => t.data[(f (c, r)).2 * t.numCols + (f (c, r)).1]?) := by
-  unfold gridPerm
-  rw [h.grid_length, hs_headC t h]
-  apply cellsGrid_congr
-  intro c r hc hr
-  exact hs_gcell t h _ _ (hf c r hc hr).1
+    rcases hr with hr | hr <;> rw [hr] <;> exact ⟨nofun, nofun⟩
+  cases op with
+  | fromVec c r v =>
+    have : (TD.fromVec c r v).map (fun _ => ()) = .ok () ∨ (TD.fromVec c r v).map (fun _ => ()) = .error .panic := by
+      by_cases hs : shapeOk c r ∧ c * r = v.length
+      · obtain ⟨t', e', _⟩ := (C20_from_vec c r v).1 hs
+        rw [e']; exact Or.inl rfl
+      · rw [(C20_from_vec c r v).2 hs]; exact Or.inr rfl
+    exact okp _ this
+  | insertRow i it spare =>
+    have := C11_insert_row e.m e.cap t h i it spare (Or.inl hop) he
+    exact ⟨this.1, this.2.1⟩
+  | insertCol i it spare =>
+    have := C11_insert_col e.m e.cap t h i it spare (Or.inl hop) he
+    exact ⟨this.1, this.2.1⟩
+  | removeRow i w => exact okp _ (hs_res_removeRow e.m t h i)
+  | removeRowLeak i w => exact okp _ (hs_res_removeRow e.m t h i)
+  | removeCol i w =>
+    apply okp
+    by_cases hi : i < t.numCols
+    · obtain ⟨_, _, _, _, _, _, _, _, _, hr, _⟩ := hs_step_removeCol e t h i hi w
+      exact Or.inl hr
+    · exact Or.inr (hs_step_removeCol_reject e t i hi w).2
+  | removeColLeak i w =>
+    apply okp
+    by_cases hi : i < t.numCols
+    · obtain ⟨_, _, _, _, _, _, hr, _⟩ := hs_step_removeColLeak e t h i hi w
+      exact Or.inl hr
+    · exact Or.inr (hs_step_removeColLeak_reject e t i hi w).2
+  | popRow w =>
+    have : (t.popRow e.m).map (fun _ => ()) = .ok () := by
+      by_cases h0 : t.numRows = 0
+      · rw [(C07_pop_row e.m t h).1 h0]; rfl
+      · obtain ⟨d, hd, _⟩ := C07_remove_row e.m t h (t.numRows - 1) (by omega)
+        rw [hs_popRow_some e.m t h h0 d hd]; rfl
+    exact okp _ (Or.inl this)
+  | popCol w =>
+    apply okp
+    by_cases h0 : t.numCols = 0
+    · exact Or.inl (hs_step_popCol_none e t h h0 w).2
+    · rw [(hs_step_popCol e t h h0 w).2]
+      obtain ⟨_, _, _, _, _, _, _, _, _, hr, _⟩ := hs_step_removeCol e t h (t.numCols - 1) (by omega) w
+      exact Or.inl hr
+  | clear => exact okp _ (Or.inl rfl)
+  | swapDimensions => exact okp _ (Or.inl rfl)
+  | capacityCall => exact okp _ (Or.inl rfl)
+  | takeInto k => exact okp _ (Or.inl rfl)
+  | inplace op =>
+    have gen : ∀ r : Res (List α), r ≠ .error .ub → r ≠ .error .fuel →
+        r.map (fun _ => ()) ≠ .error .ub ∧ r.map (fun _ => ()) ≠ .error .fuel := by
+      intro r h1 h2
+      cases r with
+      | ok d => exact ⟨nofun, nofun⟩
+      | error er =>
+        refine ⟨fun hc => h1 ?_, fun hc => h2 ?_⟩
+        · have : er = .ub := by injection hc
+          rw [this]
+        · have : er = .fuel := by injection hc
+          rw [this]
+    obtain ⟨h1, h2, _⟩ := hs_spec_facts e.lim t h op hop.1
+    rw [← hs_run_spec e.m e.lim t h op hop] at h1 h2
+    exact gen _ h1 h2
 
 /-! ### each operation against the rows-of-cells model -/
 
-theorem hs_reverse_range (n : Nat) : (List.range n).reverse = (List.range n).map (fun i => n - 1 - i) := by
-  rw [List.range_eq_range', List.reverse_range', ← List.range_eq_range']
-  apply List.map_congr_left
-  intro i _
-  omega
+theorem hs_grid_empty : (⟨[], 0, 0⟩ : TD α).grid = [] := rl_toRows_nil 0
 
-theorem cellsGrid_reverse (R C : Nat) (X : Nat → Nat → Option α) :
-    (cellsGrid R C X).reverse = cellsGrid R C (fun c r => X c (R - 1 - r)) := by
-  unfold cellsGrid
-  rw [← List.map_reverse, hs_reverse_range, List.map_map]
-  rfl
-
-theorem cellsGrid_map_reverse (R C : Nat) (X : Nat → Nat → Option α) :
-    (cellsGrid R C X).map List.reverse = cellsGrid R C (fun c r => X (C - 1 - c) r) := by
-  unfold cellsGrid
-  rw [List.map_map]
-  apply List.map_congr_left
-  intro r _
-  show ((List.range C).filterMap fun c => X c r).reverse = _
-  rw [← List.filterMap_reverse, hs_reverse_range, List.filterMap_map]
-  rfl
-
-theorem hs_ref_removeRow (m : Mode) (t : TD α) (h : t.Inv) (i : Nat) :
-    gstep t.grid (.removeRow i) = some (hstep m t (.removeRow i)).grid := by
+theorem hs_ref_removeRow (e : HEnv) (t : TD α) (h : t.Inv) (i : Nat) (w : List Bool) :
+    gstep t.grid (.removeRow i w) = some (hstep e t (.removeRow i w)).grid := by
   show some (t.grid.eraseIdx i) = _
   congr 1
+  simp only [hstep]
   by_cases hi : i < t.numRows
-  · obtain ⟨d, e, _, hg⟩ := (hs_removeRow m t h i).1 hi
-    simp only [hstep, e]
+  · obtain ⟨d, hd, _, _, _, hg, _⟩ := C07_remove_row_run e.m t h i hi w
+    rw [hd]
     exact hg.symm
-  · simp only [hstep, (hs_removeRow m t h i).2 hi]
+  · rw [C07_remove_row_reject e.m t i hi]
     exact List.eraseIdx_of_length_le (by rw [h.grid_length]; omega)
 
-theorem hs_ref_removeCol (m : Mode) (t : TD α) (h : t.Inv) (i : Nat) :
-    gstep t.grid (.removeCol i) = some (hstep m t (.removeCol i)).grid := by
-  show (if i < (t.grid.head?.map List.length).getD 0 then
-      (if (t.grid.head?.map List.length).getD 0 = 1 then some [] else some (t.grid.map fun ρ => ρ.eraseIdx i))
+theorem hs_ref_popRow (e : HEnv) (t : TD α) (h : t.Inv) (w : List Bool) :
+    gstep t.grid (.popRow w) = some (hstep e t (.popRow w)).grid := by
+  show some t.grid.dropLast = _
+  congr 1
+  simp only [hstep]
+  by_cases h0 : t.numRows = 0
+  · rw [(C07_pop_row e.m t h).1 h0, (hs_grid_eq_nil t h).2 h0]
+    rfl
+  · obtain ⟨d, hd, _, _, _, hg, _⟩ := C07_remove_row_run e.m t h (t.numRows - 1) (by omega) w
+    rw [hs_popRow_some e.m t h h0 d hd]
+    show _ = (d.run w).2.drop.1.grid
+    rw [hg, ← List.eraseIdx_eq_dropLast (i := t.numRows - 1) (by rw [h.grid_length]; omega)]
+
+theorem hs_ref_removeRowLeak (e : HEnv) (t : TD α) (h : t.Inv) (i : Nat) (w : List Bool) :
+    gstep t.grid (.removeRowLeak i w) = some (hstep e t (.removeRowLeak i w)).grid := by
+  show (if i < t.grid.length then some (t.grid.take i) else some t.grid) = _
+  rw [h.grid_length]
+  simp only [hstep]
+  by_cases hi : i < t.numRows
+  · obtain ⟨d, hd, _, _, _, hg, _⟩ := C12_leak_drain_row_run e.m t h i hi w
+    rw [if_pos hi, hd]
+    exact congrArg some hg.symm
+  · rw [if_neg hi, C07_remove_row_reject e.m t i hi]
+
+theorem hs_ref_removeCol (e : HEnv) (t : TD α) (h : t.Inv) (i : Nat) (w : List Bool) :
+    gstep t.grid (.removeCol i w) = some (hstep e t (.removeCol i w)).grid := by
+  show (if i < gcols t.grid then
+      (if gcols t.grid = 1 then some [] else some (t.grid.map fun ρ => ρ.eraseIdx i))
     else some t.grid) = _
   rw [hs_headC t h]
   by_cases hi : i < t.numCols
-  · obtain ⟨d, t', dropped, e1, e2, _, hg⟩ := (hs_removeCol m t h i).1 hi
-    simp only [hstep, e1, e2]
-    rw [if_pos hi, hg]
+  · obtain ⟨_, _, _, t', _, _, _, _, hs, _, _, _, _, hg, _⟩ := hs_step_removeCol e t h i hi w
+    rw [if_pos hi, hs, hg]
     by_cases h1 : t.numCols = 1
     · rw [if_pos h1, if_pos h1]
     · rw [if_neg h1, if_neg h1]
-  · simp only [hstep, (hs_removeCol m t h i).2 hi]
-    rw [if_neg hi]
+  · rw [if_neg hi, (hs_step_removeCol_reject e t i hi w).1]
 
-theorem hs_ref_popRow (m : Mode) (t : TD α) (h : t.Inv) :
-    gstep t.grid .popRow = some (hstep m t .popRow).grid := by
-  show some t.grid.dropLast = _
-  rw [hs_popRow m t h]
-  by_cases h0 : t.numRows = 0
-  · rw [if_pos h0, (hs_grid_eq_nil t h).2 h0]
-    rfl
-  · rw [if_neg h0, ← List.eraseIdx_eq_dropLast (i := t.numRows - 1) (by rw [h.grid_length]; omega)]
-    exact hs_ref_removeRow m t h _
-
-theorem hs_ref_popCol (m : Mode) (t : TD α) (h : t.Inv) :
-    gstep t.grid .popCol = some (hstep m t .popCol).grid := by
-  show (if (t.grid.head?.map List.length).getD 0 = 0 then some t.grid
-    else if (t.grid.head?.map List.length).getD 0 = 1 then some []
-    else some (t.grid.map fun ρ => ρ.eraseIdx ((t.grid.head?.map List.length).getD 0 - 1))) = _
-  rw [hs_headC t h, hs_popCol m t h]
+theorem hs_ref_popCol (e : HEnv) (t : TD α) (h : t.Inv) (w : List Bool) :
+    gstep t.grid (.popCol w) = some (hstep e t (.popCol w)).grid := by
+  show (if gcols t.grid = 0 then some t.grid
+    else if gcols t.grid = 1 then some []
+    else some (t.grid.map fun ρ => ρ.eraseIdx (gcols t.grid - 1))) = _
+  rw [hs_headC t h]
   by_cases h0 : t.numCols = 0
-  · rw [if_pos h0, if_pos h0]
-  · rw [if_neg h0, if_neg h0, ← hs_ref_removeCol m t h]
-    show _ = (if t.numCols - 1 < (t.grid.head?.map List.length).getD 0 then
-      (if (t.grid.head?.map List.length).getD 0 = 1 then some []
+  · rw [if_pos h0, (hs_step_popCol_none e t h h0 w).1]
+  · rw [if_neg h0, (hs_step_popCol e t h h0 w).1, ← hs_ref_removeCol e t h]
+    show _ = (if t.numCols - 1 < gcols t.grid then
+      (if gcols t.grid = 1 then some []
         else some (t.grid.map fun ρ => ρ.eraseIdx (t.numCols - 1)))
       else some t.grid)
     have hlt : t.numCols - 1 < t.numCols := by omega
     rw [hs_headC t h, if_pos hlt]
 
-theorem hs_ref_clear (m : Mode) (t : TD α) : gstep t.grid .clear = some (hstep m t .clear).grid := by
-  show some [] = some (toRows 0 [])
-  rw [rl_toRows_nil]
-
-theorem hs_ref_fill (m : Mode) (t : TD α) (h : t.Inv) (x : α) :
-    gstep t.grid (.fill x) = some (hstep m t (.fill x)).grid := by
-  show some (t.grid.map fun ρ => ρ.map fun _ => x) = some ({ t with data := t.fill x } : TD α).grid
-  congr 1
-  rw [hs_grid_of_data t h (t.fill x) (by simp [TD.fill]), hs_grid_cells t h]
-  unfold cellsGrid
-  rw [List.map_map]
-  apply List.map_congr_left
-  intro r hr
-  show ((List.range t.numCols).filterMap fun c => t.data[r * t.numCols + c]?).map (fun _ => x) = _
-  rw [List.map_filterMap]
-  apply filterMap_congr_mem
-  intro c hc
-  have hlt : r * t.numCols + c < t.data.length := by
-    rw [h.len]; exact cell_lt (List.mem_range.1 hc) (List.mem_range.1 hr)
-  simp [TD.fill, hlt]
-
-theorem hs_ref_swapRows (m : Mode) (t : TD α) (h : t.Inv) (r1 r2 : Nat) :
-    gstep t.grid (.swapRows r1 r2) = some (hstep m t (.swapRows r1 r2)).grid := by
-  show (if r1 < t.grid.length ∧ r2 < t.grid.length then some (gridPerm t.grid (swapRowsG r1 r2)) else some t.grid)
-    = some (t.withData (t.swapRows m r1 r2)).grid
-  rw [h.grid_length]
-  by_cases hr : r1 < t.numRows ∧ r2 < t.numRows
-  · rw [if_pos hr, (hs_swapRows m t h r1 r2).1 hr, hs_gridPerm t h _ (hs_swapRowsG_cells t hr)]
-    exact congrArg some (hs_grid_gather t h _ (hs_swapRowsG_cells t hr)).symm
-  · rw [if_neg hr, (hs_swapRows m t h r1 r2).2 hr]
-    rfl
-
-theorem hs_ref_swapCols (m : Mode) (t : TD α) (h : t.Inv) (c1 c2 : Nat) :
-    gstep t.grid (.swapCols c1 c2) = some (hstep m t (.swapCols c1 c2)).grid := by
-  show (if c1 < (t.grid.head?.map List.length).getD 0 ∧ c2 < (t.grid.head?.map List.length).getD 0 then
-      some (gridPerm t.grid (swapColsG c1 c2)) else some t.grid)
-    = some (t.withData (t.acc.swapCols t.data c1 c2)).grid
+theorem hs_ref_removeColLeak (e : HEnv) (t : TD α) (h : t.Inv) (i : Nat) (w : List Bool) :
+    gstep t.grid (.removeColLeak i w) = some (hstep e t (.removeColLeak i w)).grid := by
+  show (if i < gcols t.grid then some [] else some t.grid) = _
   rw [hs_headC t h]
-  by_cases hc : c1 < t.numCols ∧ c2 < t.numCols
-  · rw [if_pos hc, (hs_swapCols t h c1 c2).1 hc, hs_gridPerm t h _ (hs_swapColsG_cells t hc)]
-    exact congrArg some (hs_grid_gather t h _ (hs_swapColsG_cells t hc)).symm
-  · rw [if_neg hc, (hs_swapCols t h c1 c2).2 hc]
-    rfl
+  by_cases hi : i < t.numCols
+  · obtain ⟨_, _, _, _, _, hs, _⟩ := hs_step_removeColLeak e t h i hi w
+    rw [if_pos hi, hs, hs_grid_empty]
+  · rw [if_neg hi, (hs_step_removeColLeak_reject e t i hi w).1]
 
-theorem hs_ref_flipRows (m : Mode) (t : TD α) (h : t.Inv) :
-    gstep t.grid .flipRows = some (hstep m t .flipRows).grid := by
-  show some t.grid.reverse = some (t.withData (t.acc.flipRows m t.data)).grid
-  rw [hs_flipRows m t h]
-  congr 1
-  rw [hs_grid_cells t h, cellsGrid_reverse]
-  exact (hs_grid_gather t h _ (hs_flipRowsG_cells t)).symm
+theorem hs_ref_fromVec (e : HEnv) (t : TD α) (c r : Nat) (v : List α) :
+    gstep t.grid (.fromVec c r v) = some (hstep e t (.fromVec c r v)).grid := by
+  show (if specShapeOk c r ∧ c * r = v.length then some (toRows c v) else some t.grid)
+    = some (match TD.fromVec c r v with | .ok t' => t' | .error _ => t).grid
+  have hsp : specShapeOk c r = true ↔ shapeOk c r := by
+    unfold specShapeOk shapeOk
+    exact decide_eq_true_iff
+  by_cases hs : shapeOk c r ∧ c * r = v.length
+  · obtain ⟨t', e, _, hc, _, hd⟩ := (C20_from_vec c r v).1 hs
+    rw [if_pos ⟨hsp.2 hs.1, hs.2⟩, e]
+    show _ = some (toRows t'.numCols t'.data)
+    rw [hc, hd]
+  · rw [if_neg (fun hc => hs ⟨hsp.1 hc.1, hc.2⟩), (C20_from_vec c r v).2 hs]
 
-theorem hs_ref_flipCols (m : Mode) (t : TD α) (h : t.Inv) :
-    gstep t.grid .flipCols = some (hstep m t .flipCols).grid := by
-  show some (t.grid.map List.reverse) = some (t.withData (t.acc.flipCols t.data)).grid
-  rw [hs_flipCols t h]
-  congr 1
-  rw [hs_grid_cells t h, cellsGrid_map_reverse]
-  exact (hs_grid_gather t h _ (hs_flipColsG_cells t)).symm
+theorem hs_ref_swapDimensions (e : HEnv) (t : TD α) (h : t.Inv) :
+    gstep t.grid .swapDimensions = some (hstep e t .swapDimensions).grid := by
+  show some (toRows t.grid.length t.grid.flatten) = some (toRows t.numRows t.data)
+  rw [h.grid_length, ← h.data_eq_flatten_grid]
 
 /-! ### insertion against the rows-of-cells model -/
 
@@ -648,13 +383,13 @@ theorem hs_toRows_one (xs : List α) : toRows 1 xs = xs.map fun x => [x] := by
   rw [hf] at this
   exact this
 
-theorem hs_ref_insertRow (m : Mode) (t : TD α) (h : t.Inv) (i : Nat) (it : IterScript α) (spare : List α)
-    (hop : it.claimed ≤ spare.length) (hfit : t.data.length + it.claimed < WORD - 1)
+theorem hs_ref_insertRow (m : Mode) (cap : Nat) (hcapw : cap < WORD) (t : TD α) (h : t.Inv) (i : Nat) (it : IterScript α)
+    (spare : List α) (hop : it.claimed ≤ spare.length) (hfit : t.data.length + it.claimed ≤ cap)
     (g' : List (List α)) (hg : gstep t.grid (.insertRow i it spare) = some g') :
-    (hstep m t (.insertRow i it spare)).grid = g' := by
+    (t.insertRow m cap i it spare).t.grid = g' := by
   have hg2 : (if it.events.all Option.isSome ∧ it.claimed = (it.events.filterMap id).length then
       (if t.grid = [] then some (if i = 0 ∧ it.events.filterMap id ≠ [] then [it.events.filterMap id] else [])
-       else if i ≤ t.grid.length ∧ (it.events.filterMap id).length = (t.grid.head?.map List.length).getD 0
+       else if i ≤ t.grid.length ∧ (it.events.filterMap id).length = gcols t.grid
          then some (t.grid.insertIdx i (it.events.filterMap id)) else some t.grid)
       else none) = some g' := hg
   by_cases hcond : it.events.all Option.isSome ∧ it.claimed = (it.events.filterMap id).length
@@ -663,10 +398,8 @@ theorem hs_ref_insertRow (m : Mode) (t : TD α) (h : t.Inv) (i : Nat) (it : Iter
     generalize it.events.filterMap id = xs at hit hg2
     subst hit
     have hop' : xs.length ≤ spare.length := hop
-    have hfit' : t.data.length + xs.length < WORD - 1 := hfit
-    have hcap : t.data.length + xs.length ≤ histCap := by unfold histCap; omega
+    have hcap : t.data.length + xs.length ≤ cap := hfit
     have hword : t.data.length + xs.length < WORD := by omega
-    show (t.insertRow m histCap i (honest xs) spare).t.grid = g'
     rw [h.grid_length, hs_headC t h] at hg2
     by_cases hg0 : t.grid = []
     · rw [if_pos hg0] at hg2
@@ -678,7 +411,7 @@ theorem hs_ref_insertRow (m : Mode) (t : TD α) (h : t.Inv) (i : Nat) (it : Iter
       by_cases hi0 : i = 0
       · subst hi0
         obtain ⟨_, _, _, _, hdata, hnc, _⟩ :=
-          C06_insert_row_ok m histCap t h 0 xs spare (Nat.zero_le _) (Or.inl hR0) hcap hop' hword
+          C06_insert_row_ok m cap t h 0 xs spare (Nat.zero_le _) (Or.inl hR0) hcap hop' hword
         show toRows _ _ = g'
         rw [hnc, hdata, hd0]
         simp only [List.take_nil, List.drop_nil, List.nil_append, List.append_nil]
@@ -690,7 +423,7 @@ theorem hs_ref_insertRow (m : Mode) (t : TD α) (h : t.Inv) (i : Nat) (it : Iter
           rw [← hg2]
           exact hs_toRows_single xs hx
       · rw [if_neg (fun hc => hi0 hc.1)] at hg2
-        have hrej := (C06_insert_row_reject m histCap t i (honest xs) spare (by omega)).2.1
+        have hrej := (C06_insert_row_reject m cap t i (honest xs) spare (by omega)).2.1
         rw [hrej, hg0, hg2]
     · rw [if_neg hg0] at hg2
       have hR0 : t.numRows ≠ 0 := fun h0 => hg0 ((hs_grid_eq_nil t h).2 h0)
@@ -699,25 +432,25 @@ theorem hs_ref_insertRow (m : Mode) (t : TD α) (h : t.Inv) (i : Nat) (it : Iter
       · rw [if_pos hacc] at hg2
         injection hg2 with hg2
         rw [← hg2]
-        exact C06_insert_row_grid m histCap t h i xs spare hacc.1 hacc.2 (by omega) hcap hop' hword
+        exact C06_insert_row_grid m cap t h i xs spare hacc.1 hacc.2 (by omega) hcap hop' hword
       · rw [if_neg hacc] at hg2
         injection hg2 with hg2
         have hbad : ¬ (i ≤ t.numRows ∧ (t.numRows = 0 ∨ (honest xs).claimed = t.numCols)) := by
           rintro ⟨h1, h2 | h2⟩
           · exact hR0 h2
           · exact hacc ⟨h1, h2⟩
-        have hrej := (C06_insert_row_reject m histCap t i (honest xs) spare hbad).2.1
+        have hrej := (C06_insert_row_reject m cap t i (honest xs) spare hbad).2.1
         rw [hrej, hg2]
   · rw [if_neg hcond] at hg2
     cases hg2
 
-theorem hs_ref_insertCol (m : Mode) (t : TD α) (h : t.Inv) (i : Nat) (it : IterScript α) (spare : List α)
-    (hop : it.claimed ≤ spare.length) (hfit : t.data.length + it.claimed < WORD - 1)
+theorem hs_ref_insertCol (m : Mode) (cap : Nat) (hcapw : cap < WORD) (t : TD α) (h : t.Inv) (i : Nat) (it : IterScript α)
+    (spare : List α) (hop : it.claimed ≤ spare.length) (hfit : t.data.length + it.claimed ≤ cap)
     (g' : List (List α)) (hg : gstep t.grid (.insertCol i it spare) = some g') :
-    (hstep m t (.insertCol i it spare)).grid = g' := by
+    (t.insertCol m cap i it spare).t.grid = g' := by
   have hg2 : (if it.events.all Option.isSome ∧ it.claimed = (it.events.filterMap id).length then
       (if t.grid = [] then some (if i = 0 then (it.events.filterMap id).map (fun x => [x]) else [])
-       else if i ≤ (t.grid.head?.map List.length).getD 0 ∧ (it.events.filterMap id).length = t.grid.length
+       else if i ≤ gcols t.grid ∧ (it.events.filterMap id).length = t.grid.length
          then some (List.zipWith (insAt i) t.grid (it.events.filterMap id)) else some t.grid)
       else none) = some g' := hg
   by_cases hcond : it.events.all Option.isSome ∧ it.claimed = (it.events.filterMap id).length
@@ -726,10 +459,8 @@ theorem hs_ref_insertCol (m : Mode) (t : TD α) (h : t.Inv) (i : Nat) (it : Iter
     generalize it.events.filterMap id = xs at hit hg2
     subst hit
     have hop' : xs.length ≤ spare.length := hop
-    have hfit' : t.data.length + xs.length < WORD - 1 := hfit
-    have hcap : t.data.length + xs.length ≤ histCap := by unfold histCap; omega
+    have hcap : t.data.length + xs.length ≤ cap := hfit
     have hword : t.data.length + xs.length < WORD := by omega
-    show (t.insertCol m histCap i (honest xs) spare).t.grid = g'
     rw [h.grid_length, hs_headC t h] at hg2
     by_cases hg0 : t.grid = []
     · rw [if_pos hg0] at hg2
@@ -740,7 +471,7 @@ theorem hs_ref_insertCol (m : Mode) (t : TD α) (h : t.Inv) (i : Nat) (it : Iter
       · subst hi0
         rw [if_pos rfl] at hg2
         obtain ⟨_, _, _, _, hdata, _, hnc⟩ :=
-          C06_insert_col_ok m histCap t h 0 xs spare (Nat.zero_le _) (Or.inl hC0) hcap hop' hword
+          C06_insert_col_ok m cap t h 0 xs spare (Nat.zero_le _) (Or.inl hC0) hcap hop' hword
         show toRows _ _ = g'
         rw [hnc, hdata, if_pos hC0, ← hg2]
         by_cases hx : xs.length = 0
@@ -749,7 +480,7 @@ theorem hs_ref_insertCol (m : Mode) (t : TD α) (h : t.Inv) (i : Nat) (it : Iter
         · rw [if_neg hx, hC0]
           exact hs_toRows_one xs
       · rw [if_neg hi0] at hg2
-        have hrej := (C06_insert_col_reject m histCap t i (honest xs) spare (by omega)).2.1
+        have hrej := (C06_insert_col_reject m cap t i (honest xs) spare (by omega)).2.1
         rw [hrej, hg0, hg2]
     · rw [if_neg hg0] at hg2
       have hR0 : t.numRows ≠ 0 := fun h0 => hg0 ((hs_grid_eq_nil t h).2 h0)
@@ -758,178 +489,48 @@ theorem hs_ref_insertCol (m : Mode) (t : TD α) (h : t.Inv) (i : Nat) (it : Iter
       · rw [if_pos hacc] at hg2
         injection hg2 with hg2
         rw [← hg2]
-        exact C06_insert_col_grid m histCap t h i xs spare hacc.1 hacc.2 hC0 hcap hop' hword
+        exact C06_insert_col_grid m cap t h i xs spare hacc.1 hacc.2 hC0 hcap hop' hword
       · rw [if_neg hacc] at hg2
         injection hg2 with hg2
         have hbad : ¬ (i ≤ t.numCols ∧ (t.numCols = 0 ∨ (honest xs).claimed = t.numRows)) := by
           rintro ⟨h1, h2 | h2⟩
           · omega
           · exact hacc ⟨h1, h2⟩
-        have hrej := (C06_insert_col_reject m histCap t i (honest xs) spare hbad).2.1
+        have hrej := (C06_insert_col_reject m cap t i (honest xs) spare hbad).2.1
         rw [hrej, hg2]
   · rw [if_neg hcond] at hg2
     cases hg2
 
-/-! ### the remaining operations against the rows-of-cells model -/
-
-theorem hs_ref_fromVec (m : Mode) (t : TD α) (c r : Nat) (v : List α) :
-    gstep t.grid (.fromVec c r v) = some (hstep m t (.fromVec c r v)).grid := by
-  show (if specShapeOk c r ∧ c * r = v.length then some (toRows c v) else some t.grid)
-    = some (match TD.fromVec c r v with | .ok t' => t' | .error _ => t).grid
-  have hsp : specShapeOk c r = true ↔ shapeOk c r := by
-    unfold specShapeOk shapeOk
-    exact decide_eq_true_iff
-  by_cases hs : shapeOk c r ∧ c * r = v.length
-  · obtain ⟨t', e, _, hc, _, hd⟩ := (C20_from_vec c r v).1 hs
-    rw [if_pos ⟨hsp.2 hs.1, hs.2⟩, e]
-    show _ = some (toRows t'.numCols t'.data)
-    rw [hc, hd]
-  · rw [if_neg (fun hc => hs ⟨hsp.1 hc.1, hc.2⟩), (C20_from_vec c r v).2 hs]
-
-theorem hs_ref_swapDimensions (m : Mode) (t : TD α) (h : t.Inv) :
-    gstep t.grid .swapDimensions = some (hstep m t .swapDimensions).grid := by
-  show some (toRows t.grid.length t.grid.flatten) = some (toRows t.numRows t.data)
-  rw [h.grid_length, ← h.data_eq_flatten_grid]
-
-theorem hs_ref_swap (m : Mode) (t : TD α) (h : t.Inv) (c1 r1 c2 r2 : Nat) :
-    gstep t.grid (.swap c1 r1 c2 r2) = some (hstep m t (.swap c1 r1 c2 r2)).grid := by
-  show (if c1 < (t.grid.head?.map List.length).getD 0 ∧ c2 < (t.grid.head?.map List.length).getD 0 ∧
-        r1 < t.grid.length ∧ r2 < t.grid.length then
-      some (gridPerm t.grid (swapCellG (c1, r1) (c2, r2))) else some t.grid)
-    = some (t.withData (t.swap m c1 r1 c2 r2)).grid
-  rw [hs_headC t h, h.grid_length]
-  by_cases hr : c1 < t.numCols ∧ c2 < t.numCols ∧ r1 < t.numRows ∧ r2 < t.numRows
-  · have hcw := h.cols_word
-    have hrw := h.rows_word
-    rw [if_pos hr, (C13_swap_owned m t h c1 r1 c2 r2 ⟨by omega, by omega, by omega, by omega⟩).1 hr,
-      hs_gridPerm t h _ (hs_swapCellG_cells t hr)]
-    exact congrArg some (hs_grid_gather t h _ (hs_swapCellG_cells t hr)).symm
-  · rw [if_neg hr, hs_swap_reject m t c1 r1 c2 r2 hr]
-    rfl
-
-theorem hs_ref_copyFromSlice (m : Mode) (t : TD α) (h : t.Inv) (src : List α) :
-    gstep t.grid (.copyFromSlice src) = some (hstep m t (.copyFromSlice src)).grid := by
-  show (if (t.grid.head?.map List.length).getD 0 * t.grid.length = src.length then
-      some (toRows ((t.grid.head?.map List.length).getD 0) src) else some t.grid)
-    = some (t.withData (t.copyFromSlice src)).grid
-  rw [hs_headC t h, h.grid_length, ← h.len]
-  unfold TD.copyFromSlice
-  by_cases hl : t.data.length = src.length
-  · rw [if_pos hl, if_neg (by simpa using hl)]
-    rfl
-  · rw [if_neg hl, if_pos hl]
-    rfl
-
-theorem hs_ref_translate (m : Mode) (t : TD α) (h : t.Inv) (mc mr : Nat) :
-    gstep t.grid (.translate mc mr) = some (hstep m t (.translate mc mr)).grid := by
-  show (if mc ≤ (t.grid.head?.map List.length).getD 0 ∧ mr ≤ t.grid.length then
-      some (gridPerm t.grid (translateG ((t.grid.head?.map List.length).getD 0) t.grid.length mc mr)) else some t.grid)
-    = some (t.withData (t.acc.translateWithWrap m (t.getUncheckedRow m) t.data (mc, mr))).grid
-  rw [hs_headC t h, h.grid_length]
-  by_cases hm : mc ≤ t.numCols ∧ mr ≤ t.numRows
-  · have hcells := (C15_maps_bijective t.numCols t.numRows mc mr _ (List.mem_cons_self ..)).1
-    rw [if_pos hm, C15_translate m t.asView t.data (C02_owned_as_view t h).1 t.acc (C13_acc_owned t h) _
-      (hs_getUncheckedRow m t h) (mc, mr) hm, hs_gridPerm t h _ hcells]
-    exact congrArg some (hs_grid_gather t h _ hcells).symm
-  · rw [if_neg hm, C15_translate_reject m t.acc _ t.data (mc, mr) hm]
-    rfl
-
-/-- the key row of `sort_by_row` is the grid's row -/
-theorem hs_row_key (t : TD α) (h : t.Inv) (row : Nat) (hr : row < t.numRows) :
-    t.grid[row]?.getD [] = readWin t.data (t.asView.rowWin row) := by
-  have hC : 0 < t.numCols := h.cols_pos hr
-  have hdiv : t.data.length / t.numCols = t.numRows := by
-    rw [h.len, Nat.mul_div_cancel_left _ hC]
-  unfold TD.grid toRows
-  rw [List.getElem?_map, hdiv, List.getElem?_range hr]
-  show (t.data.drop (row * t.numCols)).take t.numCols = (t.data.drop (0 + row * t.numCols + 0)).take t.numCols
-  rw [Nat.zero_add, Nat.add_zero]
-
-/-- the key column of `sort_by_col` is the grid's column -/
-theorem hs_col_key (t : TD α) (h : t.Inv) (col : Nat) (hc : col < t.numCols) :
-    t.grid.filterMap (·[col]?) = (List.range t.numRows).filterMap fun r => t.data[t.asView.pos col r]? := by
-  have hdiv : t.data.length / t.numCols = t.numRows := by
-    rw [h.len, Nat.mul_div_cancel_left _ (by omega)]
-  unfold TD.grid toRows
-  rw [List.filterMap_map, hdiv]
-  apply filterMap_congr_mem
-  intro r _
-  show ((t.data.drop (r * t.numCols)).take t.numCols)[col]? = t.data[0 + r * t.numCols + col]?
-  rw [List.getElem?_take, if_pos hc, List.getElem?_drop, Nat.zero_add]
-
-theorem hs_ref_sortByRow (m : Mode) (t : TD α) (h : t.Inv) (le : α → α → Bool) (row : Nat) :
-    gstep t.grid (.sortByRow le row) = some (hstep m t (.sortByRow le row)).grid := by
-  show (if row < t.grid.length then
-      some (gridPerm t.grid (sortColsG (stablePerm le (t.grid[row]?.getD [])))) else some t.grid)
-    = some (t.withData (t.acc.sortByRow (t.indexRow m) t.data le row)).grid
-  rw [h.grid_length]
-  have hv := (C02_owned_as_view t h).1
-  have hs := C16_sort_by_row t.asView t.data hv t.acc (C13_acc_owned t h) (t.indexRow m) (hs_indexRow m t h) le row
-  by_cases hr : row < t.numRows
-  · rw [if_pos hr, hs.1 hr, hs_row_key t h row hr]
-    have hin := VW.rowWin_inside hv hr
-    have hl : (readWin t.data (t.asView.rowWin row)).length = t.numCols := by
-      simp only [readWin, List.length_take, List.length_drop]
-      have : (t.asView.rowWin row).len = t.numCols := rfl
-      omega
-    have hp := stablePerm_perm le (readWin t.data (t.asView.rowWin row))
-    rw [hl] at hp
-    have hb := (C16_cols_bijective t.numCols t.numRows _ hp).1
-    have hcells : ∀ c r, c < t.numCols → r < t.numRows →
-        (sortColsG (stablePerm le (readWin t.data (t.asView.rowWin row))) (c, r)).1 < t.numCols ∧
-        (sortColsG (stablePerm le (readWin t.data (t.asView.rowWin row))) (c, r)).2 < t.numRows :=
-      fun c r hc hr' => ⟨(hb c r hc hr').1, by rw [(hb c r hc hr').2]; exact hr'⟩
-    rw [hs_gridPerm t h _ hcells]
-    exact congrArg some (hs_grid_gather t h _ hcells).symm
-  · rw [if_neg hr, hs.2 hr]
-    rfl
-
-theorem hs_ref_sortByCol (m : Mode) (t : TD α) (h : t.Inv) (le : α → α → Bool) (col : Nat) :
-    gstep t.grid (.sortByCol le col) = some (hstep m t (.sortByCol le col)).grid := by
-  show (if col < (t.grid.head?.map List.length).getD 0 then
-      some (gridPerm t.grid (sortRowsG (stablePerm le (t.grid.filterMap (·[col]?))))) else some t.grid)
-    = some (t.withData (t.acc.sortByCol (t.col m)
-        (fun b r1 r2 => ({ t with data := b } : TD α).swapRows m r1 r2) t.data le col)).grid
-  rw [hs_headC t h]
-  have hv := (C02_owned_as_view t h).1
-  have hcw := h.cols_word
-  have hcol : ∀ c, c < t.asView.numCols → ∃ it, t.col m c = .ok it ∧ it.WF t.asView.numRows t.data.length ∧
-      it.abs t.asView.numRows = (List.range t.asView.numRows).map fun r => t.asView.pos c r := by
-    intro c hc
-    have hc' : c < t.numCols := hc
-    obtain ⟨it, e, hwf, habs⟩ := (C09_col_owned m t h c (by omega)).1 hc'
-    refine ⟨it, e, hwf, ?_⟩
-    show it.abs t.numRows = _
-    rw [habs]
-    apply List.map_congr_left
-    intro r _
-    exact ((C02_owned_as_view t h).2 c r).symm
-  have hsw : SwapRowsSpec t.asView t.data.length
-      (fun b r1 r2 => ({ t with data := b } : TD α).swapRows m r1 r2) := by
-    intro b r1 r2 hb hr1 hr2
-    have hbi := h.with_data b hb
-    have e := (hs_swapRows m _ hbi r1 r2).1 ⟨hr1, hr2⟩
-    have hview : ({ t with data := b } : TD α).asView = t.asView := by
-      simp only [TD.asView, TD.win, hb]
-    rw [hview] at e
-    exact e
-  have hs := C17_sort_by_col t.asView t.data hv t.acc (C13_acc_owned t h) (t.col m) hcol _ hsw le col
-  by_cases hc : col < t.numCols
-  · rw [if_pos hc, hs.1 hc, hs_col_key t h col hc]
-    have hp := stablePerm_perm le ((List.range t.asView.numRows).filterMap fun r => t.data[t.asView.pos col r]?)
-    rw [col_keys_length t.asView t.data hv hc] at hp
-    have hb := (C17_rows_bijective t.numCols t.numRows _ hp).1
-    have hcells : ∀ c r, c < t.numCols → r < t.numRows →
-        (sortRowsG (stablePerm le ((List.range t.asView.numRows).filterMap fun r => t.data[t.asView.pos col r]?)) (c, r)).1 < t.numCols ∧
-        (sortRowsG (stablePerm le ((List.range t.asView.numRows).filterMap fun r => t.data[t.asView.pos col r]?)) (c, r)).2 < t.numRows :=
-      fun c r hc' hr => ⟨by rw [(hb c r hc' hr).2]; exact hc', (hb c r hc' hr).1⟩
-    have e1 := hs_gridPerm t h _ hcells
-    have e2 := hs_grid_gather t h _ hcells
-    show some (gridPerm t.grid (sortRowsG (stablePerm le
-      ((List.range t.asView.numRows).filterMap fun r => t.data[t.asView.pos col r]?)))) = _
-    rw [e1]
-    exact congrArg some e2.symm
-  · rw [if_neg hc, hs.2 hc]
-    rfl
+/-- **one step agrees with the rows-of-cells model wherever that model prescribes the result** -/
+theorem hs_step_refines (e : HEnv) (he : e.ok) (t : TD α) (h : t.Inv) (op : HOp α) (hop : op.wf) (hfit : op.fits e t)
+    (g' : List (List α)) (hg : gstep t.grid op = some g') :
+    (hstep e t op).grid = g' := by
+  have fin : ∀ x : List (List α), gstep t.grid op = some x → x = g' := fun x hx => by
+    rw [hx] at hg
+    exact Option.some.inj hg
+  cases op with
+  | fromVec c r v => exact fin _ (hs_ref_fromVec e t c r v)
+  | insertRow i it spare => exact hs_ref_insertRow e.m e.cap he t h i it spare hop hfit g' hg
+  | insertCol i it spare => exact hs_ref_insertCol e.m e.cap he t h i it spare hop hfit g' hg
+  | removeRow i w => exact fin _ (hs_ref_removeRow e t h i w)
+  | removeCol i w => exact fin _ (hs_ref_removeCol e t h i w)
+  | popRow w => exact fin _ (hs_ref_popRow e t h w)
+  | popCol w => exact fin _ (hs_ref_popCol e t h w)
+  | removeRowLeak i w => exact fin _ (hs_ref_removeRowLeak e t h i w)
+  | removeColLeak i w => exact fin _ (hs_ref_removeColLeak e t h i w)
+  | clear => exact fin _ (congrArg some hs_grid_empty.symm)
+  | swapDimensions => exact fin _ (hs_ref_swapDimensions e t h)
+  | capacityCall => exact fin _ rfl
+  | takeInto k => exact fin _ (congrArg some hs_grid_empty.symm)
+  | inplace op =>
+    show (t.withData ((Recv.root t).run e.m e.lim t.data op)).grid = g'
+    rw [hs_run_spec e.m e.lim t h op hop]
+    refine hs_ref_inplace_spec e.lim t h op hop.2 ?_ ?_ g' hg
+    · intro side row hs
+      subst hs
+      exact hfit
+    · intro side col hs
+      subst hs
+      exact hfit
 
 end Toodee
